@@ -186,7 +186,8 @@ PROPS['C20'] = dict(
     level_note='Domain as stated in the property: time 0..24h ms, inc 0..10min, movestogo 0..200, ply 0..1000.',
     rule='evaluations = calculateTime calls checked. Non-trivial = distinct tuples (every tuple exercises the invariants); pairs with delta in {1, 10, large} counted as classes.',
     assumptions=[],
-    quick=dict(cases=3000, shards=16, scale=3, gates={'c20:tiny_time': 1000, 'c20:movestogo_1': 500, 'c20:pair_delta_1': 5000}, min_nontrivial=100000),
+    quick=dict(cases=3000, shards=16, scale=3, gates={'c20:tiny_time': 1000, 'c20:movestogo_1': 500, 'c20:pair_delta_1': 5000, 'c20:uci_budget_single_legal_reply': 8,
+                      'c20:uci_budget_remaining_time_zero': 12, 'c20:uci_budget_depth_limit_together_with_the_clock': 12}, min_nontrivial=100000),
     thorough=dict(cases=60000, shards=16, scale=3, min_nontrivial=3000000),
 )
 
@@ -333,6 +334,8 @@ _EXTRA = {
     'C17': ' One case in six is a live walk on one Position object (make, print/parse, unmake, print/parse again, null-move twin).',
     'C18': ' Neighbour positions are hashed back to back (same occupancy with another piece kind, sibling promotions).',
     'C19': _SESS,
+    'C20': (' One case in 400 asks the SEARCH: `go wtime W btime B [winc binc] [movestogo] [depth d]` on the in-process Uci::loop under the virtual clock; the thinking time (node visits / clock rate) '
+            'must stay within 70% of the mover\'s remaining time plus the polling granularity, also for a root with a single legal reply, for a remaining time of 0 and when a depth limit is given together with the clock.'),
     'C10': (' Exit half (prop C10exit): every case constructs its own Uci as main() does, parks the search thread at a generated schedule point and ends the session by '
             'quit / end of input / stop+quit. Valgrind half: recorded sessions are fed to the real executable (engine/main.cpp, g++ -O1 -g) under valgrind memcheck '
             'for the uninitialised-value clause.'),
